@@ -7,6 +7,7 @@ CONSTANTS
   AnyOrder = TRUE
   NB = 1
   MaxOps = 0
+  Group = "none"
   Record = FALSE
   Slice = 0
   NSlices = 1
